@@ -120,6 +120,14 @@ static void drive_writer(vrng *r, uint8_t *wbuf, size_t wcap, const uint8_t *dat
         default: LIB(b = binson_write_raw(&w, data, len)); break;
         }
     }
+    /* sources inside the writer's own buffer (the writer copies with memmove, so in-place re-encoding is legitimate) */
+    if (cap > 600) {
+        uint32_t off = vrn(r, 200), len = 33 + vrn(r, 200);
+        LIB(b = binson_write_bytes(&w, wbuf + off, len));
+        LIB(b = binson_write_string_with_len(&w, (const char *)wbuf + vrn(r, 100), 40 + vrn(r, 100)));
+        LIB(b = binson_write_raw(&w, wbuf + vrn(r, 50), 64));
+        lib_calls += 3;
+    }
     size_t c; LIB(c = binson_writer_get_counter(&w)); (void)c;
     if (w.error_flags == BINSON_ERROR_NONE) LIB(b = binson_writer_verify(&w));
     LIB(b = binson_writer_reset(&w));
@@ -183,7 +191,7 @@ static void directed_guards(void)
 /* ----------------------------------------------------------------- painted alt stack -- */
 #define ALT_SZ (512 * 1024)
 static uint8_t *alt; static ucontext_t ctx_main, ctx_alt;
-typedef struct { int od, ad; uint32_t slen; int what; vbuf *doc; } sarg;
+typedef struct { int od, ad; uint32_t slen; int what; vbuf *doc; int wide; } sarg;
 static sarg *SA;
 static void nest_doc(vbuf *d, int od, int ad, uint32_t slen, bool with_double)
 {
@@ -198,13 +206,33 @@ static void nest_doc(vbuf *d, int od, int ad, uint32_t slen, bool with_double)
     vb_u8(d, 0x14); vb_u8(d, 1); vb_u8(d, 'b'); vb_u8(d, 0x44);
     for (int i = 0; i < od; i++) vb_u8(d, 0x41);
 }
+/* {"f000":1,...,"f<N-1>":N,"zz":[1,2,...,N],"zzz":{}} : work in front of a lookup / inside a skipped array grows with N */
+static void wide_doc(vbuf *d, int n)
+{
+    vb_reset(d);
+    vb_u8(d, 0x40);
+    for (int i = 0; i < n; i++) { uint8_t nm[5] = { 'f', (uint8_t)('0' + i / 1000 % 10), (uint8_t)('0' + i / 100 % 10), (uint8_t)('0' + i / 10 % 10), (uint8_t)('0' + i % 10) }; ve_strlike(d, 0x14, nm, 5); ve_int(d, 0x10, i); }
+    ve_strlike(d, 0x14, (const uint8_t *)"zz", 2);
+    vb_u8(d, 0x42); for (int i = 0; i < n; i++) { if (i % 3 == 2) { vb_u8(d, 0x40); vb_u8(d, 0x41); } else ve_int(d, 0x10, i * 7); } vb_u8(d, 0x43);
+    ve_strlike(d, 0x14, (const uint8_t *)"zzz", 3); vb_u8(d, 0x40); vb_u8(d, 0x41);
+    vb_u8(d, 0x41);
+}
 static pobj SO; static char stext[300000]; static uint8_t swb[200000];
 static void on_alt(void)
 {
     sarg *a = SA; binson_parser *p = &SO.p; bbuf raw; binson_writer w;
     p->state = SO.st; p->max_depth = 255;
     binson_parser_init_object(p, a->doc->p, a->doc->n);
-    if (a->what == 0) {
+    if (a->what == 0 && a->wide) {
+        binson_parser_verify(p);
+        binson_parser_go_into_object(p);
+        binson_parser_field(p, "f0000"); binson_parser_field(p, "absent"); binson_parser_field_ensure(p, "zz", BINSON_TYPE_ARRAY);
+        binson_parser_go_into_array(p); binson_parser_next(p); binson_parser_next(p); binson_parser_leave_array(p);
+        binson_parser_field_with_length(p, "zzz", 3); binson_parser_get_raw(p, &raw);
+        binson_parser_leave_object(p);
+        binson_parser_reset(p); binson_parser_go_into_object(p); binson_parser_field(p, "zzz"); binson_parser_leave_object(p);
+        binson_parser_reset(p); binson_parser_go_into_object(p); binson_parser_field(p, "zz"); binson_writer_init(&w, swb, sizeof swb); binson_parser_to_writer(p, &w);
+    } else if (a->what == 0) {
         binson_parser_verify(p);
         binson_parser_go_into_object(p);
         for (int i = 1; i < a->od; i++) { binson_parser_field(p, "a"); binson_parser_go_into_object(p); }
@@ -250,7 +278,7 @@ static void stack_mode(void)
             for (int i = 0; i < 4; i++) for (int j = 0; j < 2; j++) for (int k = 0; k < 2; k++) {
                 if (what == 1 && SLS[k] > 1) continue;                  /* text: keep the output small */
                 nest_doc(&d, ODS[i], ADS[j], SLS[k], false);
-                sarg a = { ODS[i], ADS[j], SLS[k], what, &d };
+                sarg a = { ODS[i], ADS[j], SLS[k], what, &d, 0 };
                 size_t u = measure(&a);
                 if (!warm) continue;
                 if (u < lo) { lo = u; snprintf(lo_at, sizeof lo_at, "objects=%d arrays=%d string=%u", ODS[i], ADS[j], SLS[k]); }
@@ -258,18 +286,31 @@ static void stack_mode(void)
                 vw_count("stack_measurements", 1);
                 vw_nontrivial(vh_hash(&a, sizeof(int) * 4, (uint64_t)what));
             }
+        /* the same for width: number of fields in front of a lookup / elements of a skipped array */
+        static const int WIDE[] = { 1, 60, 1000 };
+        for (int warm = 0; warm < 2; warm++)
+            for (int i = 0; i < 3; i++) {
+                wide_doc(&d, WIDE[i]);
+                sarg a = { 1, 1, 0, what, &d, 1 };
+                size_t u = measure(&a);
+                if (!warm) continue;
+                if (u < lo) { lo = u; snprintf(lo_at, sizeof lo_at, "fields/elements=%d", WIDE[i]); }
+                if (u > hi) { hi = u; snprintf(hi_at, sizeof hi_at, "fields/elements=%d", WIDE[i]); }
+                vw_count("stack_measurements", 1);
+                vw_nontrivial(vh_hash(&WIDE[i], sizeof(int), 40 + (uint64_t)what));
+            }
         size_t spread_max = what == 0 ? 64 : 1024, budget = what == 0 ? 2048 + 1024 : 48 * 1024;
         vw_max(what == 0 ? "max_stack_bytes_parse_write" : "max_stack_bytes_text", hi);
         vw_max(what == 0 ? "max_stack_spread_parse_write" : "max_stack_spread_text", hi - lo);
         char s[300];
-        snprintf(s, sizeof s, "%s: stack high-water %zu B (%s) .. %zu B (%s) over object nesting {1,8,64,255} x array nesting {1,255} x string {1,70000}", what == 0 ? "verify/navigate/lookup/get_raw/to_writer/write" : "to_string/print", lo, lo_at, hi, hi_at);
+        snprintf(s, sizeof s, "%s: stack high-water %zu B (%s) .. %zu B (%s) over object nesting {1,8,64,255} x array nesting {1,255} x string {1,70000} and widths {1,60,1000}", what == 0 ? "verify/navigate/lookup/get_raw/to_writer/write" : "to_string/print", lo, lo_at, hi, hi_at);
         vw_sample(s);
         if (hi - lo > spread_max) vw_violation(what == 0 ? "c17:stack-depends-on-input" : "c17:stack-depends-on-input:text", "%s — spread %zu B exceeds %zu B: stack use depends on the input", s, hi - lo, spread_max);
         else if (hi > budget) vw_violation("c17:stack-budget", "%s — above the budget of %zu B", s, budget);
     }
 #ifdef BINSON_PARSER_WITH_PRINT
     { /* documents with a huge double: libc's printf_fp needs more, only the budget applies */
-        nest_doc(&d, 8, 3, 5, true); sarg a = { 8, 3, 5, 1, &d };
+        nest_doc(&d, 8, 3, 5, true); sarg a = { 8, 3, 5, 1, &d, 0 };
         measure(&a); size_t u = measure(&a);
         vw_max("max_stack_bytes_text_1e308", u);
         if (u > 48 * 1024) vw_violation("c17:stack-budget:double", "to_string/print of a document with 1e308 used %zu B of stack", u);
